@@ -66,8 +66,16 @@ PROOF_UNITS = {
               for (cls, f) in (('DynGraph', 'neighbors'), ('DynGraph', 'neighbors_iter'), ('DynDiGraph', 'successors_iter'), ('DynDiGraph', 'predecessors_iter'),
                                ('DynDiGraph', 'successors'), ('DynDiGraph', 'predecessors'))
               for m in ('removal', 'accum') for t in ('int', 'none')]
-           + [('contracts.neighbours', 'DegreeIter', (cls, f), {'mode': m, 't': t})
+           + [('contracts.neighbours', 'DegreeIter', (cls, f), {'mode': m, 't': t, 'nb': nb})
               for (cls, f) in (('DynGraph', 'degree_iter'), ('DynDiGraph', 'degree_iter'), ('DynDiGraph', 'in_degree_iter'), ('DynDiGraph', 'out_degree_iter'))
+              for m in ('removal', 'accum') for t in ('int', 'none') for nb in ('none', 'node', 'list1')]
+           + [('contracts.neighbours', 'DegreeQuery', (cls, f), {'mode': m, 't': t, 'nb': nb})
+              for (cls, f) in (('DynGraph', 'degree'), ('DynDiGraph', 'degree'), ('DynDiGraph', 'in_degree'), ('DynDiGraph', 'out_degree'))
+              for m in ('removal', 'accum') for t in ('int', 'none') for nb in ('none', 'node', 'list1')]
+           + [('contracts.neighbours', k, args, {'mode': m, 't': t})
+              for (k, args) in (('HasNode', ('DynGraph',)), ('HasNode', ('DynDiGraph',)), ('NodesAt', ('DynGraph', 'nodes')), ('NodesAt', ('DynDiGraph', 'nodes')),
+                                ('NodesAt', ('DynGraph', 'nodes_iter')), ('NodesAt', ('DynDiGraph', 'nodes_iter')),
+                                ('NumberOfNodes', ('DynGraph',)), ('NumberOfNodes', ('DynDiGraph',)))
               for m in ('removal', 'accum') for t in ('int', 'none')],
     'C09': [('contracts.writers', 'GenerateSnapshots', (cls,), {}) for cls in ('DynGraph', 'DynDiGraph')],
     'C16': [('contracts.convert', 'ToDirected', (), {})] + [('contracts.ctor', 'Init', ('DynDiGraph',), {'edge_removal': 'default'})],
